@@ -201,8 +201,13 @@ def _run(R):
                 if pc.bb in inner[1] and (p.dominates(pc.bb, c.bb) or p.dominates(c.bb, pc.bb)):
                     # same item: both derive from the loop variable
                     ok = _same_item(p, pc.args[1], c.args[1])
+                    # recorded on every path: once the item is in the store, the next turn of the loop is reached only through the push
+                    if ok and p.dominates(c.bb, pc.bb) and not p.dominates(pc.bb, c.bb):
+                        if inner[0] in p.reach_from(p.succ(c.bb), avoid={pc.bb}):
+                            ok = False
         R.ob("C10-R3", "tracked:add", "every item loaded into the store is recorded in prev_window_triples", ok, where=p.where(c.ln),
-             detail=None if ok else "an unrecorded item is never evicted and leaks into later firings")
+             detail=None if ok else "an unrecorded item is never evicted and leaks into later firings (also an item the store already held, e.g. a fact "
+             "derived in the previous firing: add() makes it window content, so the materialiser will not evict it either)")
     # eviction iterates prev_window_triples and clears it before the load loop
     for c in calls["remove"]:
         lp = p.loops_containing(c.bb)
